@@ -4607,6 +4607,14 @@ class Session(_SessionClassMethods, EventTarget):
                 )
                 assert _reg, "Failed to add object to the flush context!"
                 processed.add(state)
+                if is_persistent_orphan:
+                    # same as dependency.presort_saves does for an orphan found
+                    # through its parent's history: apply its delete cascade
+                    orphan_mapper = _state_mapper(state)
+                    for _o, _m, st_, _d in orphan_mapper.cascade_iterator(
+                        "delete", state
+                    ):
+                        flush_context.register_object(st_, isdelete=True)
 
         # put all remaining deletes into the flush context.
         if objset:
